@@ -100,6 +100,7 @@ type State struct {
 	alloc   *Term
 	path    []string
 	segStart string // cut point where the current segment started: "entry" or "loop k"
+	segHeap  map[string]*Term // heap at the start of the current segment (for pre(...) in rows)
 	segSpec  *FuncSpec
 	cancelled bool
 	notes   []string
@@ -110,7 +111,7 @@ type State struct {
 func (st *State) top() *Frame { return st.frames[len(st.frames)-1] }
 
 func (st *State) clone() *State {
-	n := &State{heap: map[string]*Term{}, globals: map[*ssa.Global]Val{}, alloc: st.alloc, segStart: st.segStart, segSpec: st.segSpec, cancelled: st.cancelled, noObl: st.noObl}
+	n := &State{heap: map[string]*Term{}, globals: map[*ssa.Global]Val{}, alloc: st.alloc, segStart: st.segStart, segHeap: st.segHeap, segSpec: st.segSpec, cancelled: st.cancelled, noObl: st.noObl}
 	for k, v := range st.heap {
 		n.heap[k] = v
 	}
